@@ -360,6 +360,55 @@ def r7_policy_identity(chk, prog):
     return len(table)
 
 
+def r8_class_filter(chk, prog):
+    """the class-list filter accepts precisely the classes it names: the constructor sets, for every name of the list,
+    exactly the bit whose index is the value of the class the name denotes (no offset, nothing else set), and
+    pass() returns exactly the bit indexed by the class of the message (no negation, no offset)"""
+    CQ = 'celma::log::filter::detail::LogFilterClasses'
+
+    def plain_index(e, source_pred):
+        """the index expression is a conversion of `source` and nothing else"""
+        e0 = strip_all_casts(e)
+        while e0.get('k') in ('ParenExpr',) and children(e0):
+            e0 = strip_all_casts(children(e0)[0])
+        return source_pred(e0)
+    ctor = [f for f in prog.functions if f.classq == CQ and f.d.get('ctor') and f.body is not None and f.params]
+    chk.require(ctor, 'LogFilterClasses constructor not found')
+    n = 0
+    for f in ctor:
+        conv = {}
+        for x in f.walk():
+            if x.get('k') == 'DeclStmt':
+                for d in x.get('decls', []):
+                    if isinstance(d.get('init'), dict) and mentions_call(d['init'], 'text2logClass'):
+                        conv[d['name']] = d
+        sets = [c for c in f.calls() if field_name(object_of(c)) == 'mClassSelection' and
+                (c.get('callee') or '').split('::')[-1] in ('set', 'operator[]', 'reset', 'flip')]
+        n += 1
+        ok = len(sets) == 1 and (sets[0].get('callee') or '').endswith('::set') and \
+            len([a for a in call_args(sets[0]) if not a.get('defarg')]) == 1 and plain_index(
+                call_args(sets[0])[0], lambda e0: (e0.get('k') == 'DeclRefExpr' and e0['ref']['name'] in conv) or
+                (e0.get('k') in CALL_KINDS and callee_is(e0, 'text2logClass')))
+        chk.check(ok, 'R8', f.name, 'every class named in the list sets exactly its own bit', f.loc(sets[0]) if sets
+                  else f.loc(), 'the selection is modified by %s' % [
+                      (c.get('callee') or '').split('::')[-1] for c in sets])
+    for f in [g for g in prog.functions if g.classq == CQ and g.short == 'pass' and g.body is not None]:
+        rets = [x for x in f.walk() if x.get('k') == 'ReturnStmt' and children(x)]
+        n += 1
+        ok = len(rets) == 1
+        if ok:
+            e = strip_all_casts(children(rets[0])[0])
+            while e.get('k') in ('ParenExpr', 'ExprWithCleanups', 'MaterializeTemporaryExpr', 'CXXBindTemporaryExpr') \
+                    and children(e):
+                e = strip_all_casts(children(e)[0])
+            ok = e.get('k') in CALL_KINDS and field_name(object_of(e) or (children(e)[1] if len(children(e)) > 1 else {})) \
+                == 'mClassSelection' and (e.get('callee') or '').split('::')[-1] in ('operator[]', 'test') and \
+                plain_index(call_args(e)[-1], lambda e0: e0.get('k') in CALL_KINDS and callee_is(e0, 'LogMsg::getClass'))
+        chk.check(ok, 'R8', f.name, 'pass() is the bit of the message\'s class', f.loc(),
+                  'the returned expression is not mClassSelection[ class of the message ]')
+    return n
+
+
 def run(chk):
     units = units_matching('library/log/') + [os.path.join(VERIF, 'drivers', 'log.cpp')]
     if chk.tier == 'thorough':
@@ -388,3 +437,5 @@ def run(chk):
     r6_policy(chk, prog)
     chk.rule('R7', 'duplicate policy objects report the enumerator they were created for', 3)
     r7_policy_identity(chk, prog)
+    chk.rule('R8', 'the class-list filter accepts precisely the classes it names', 2)
+    r8_class_filter(chk, prog)
